@@ -30,6 +30,9 @@ def dispatch(prop: str):
     if prop == "C19":
         from .engines import laws
         return laws.check
+    if prop == "C14":
+        from .engines import mapping
+        return mapping.check
     raise SystemExit(f"no check registered for {prop}")
 
 
